@@ -38,6 +38,7 @@ def run(timeout=2400, tier='quick'):
         env['MIRIFLAGS'] = '-Zmiri-disable-isolation'
         env['VERIF_TIER'] = tier
         env['VERIF_SYNTH_LAYOUT'] = os.path.join(ROOT, 'data', 'synthetic_layout.json')
+        env['VERIF_MINI_DB'] = os.path.join(ROOT, 'data', 'mini_db')
         cmd = ['cargo', '+nightly', 'miri', 'test', '--offline', '--test', 'verif_ffi_miri']
         try:
             p = subprocess.run(cmd, cwd=d, env=env, capture_output=True, text=True, timeout=timeout)
@@ -45,7 +46,7 @@ def run(timeout=2400, tier='quick'):
             return {'status': 'undecided', 'detail': 'miri timeout', 'cmd': ' '.join(cmd), 'wall_s': time.time() - t0}
         text = p.stdout + '\n' + p.stderr
         m = re.search(r'test result: (\w+)\. (\d+) passed; (\d+) failed', text)
-        if p.returncode == 0 and m and m.group(1) == 'ok' and int(m.group(2)) >= 2:
+        if p.returncode == 0 and m and m.group(1) == 'ok' and int(m.group(2)) >= 3:
             st = 'ok'
         elif 'Undefined Behavior' in text or 'memory leaked' in text or 'panicked' in text or (m and int(m.group(3)) > 0):
             st = 'fail'
